@@ -427,6 +427,8 @@ let monitor_build id stream rfc (inp : item list) (doc : json) =
       (try
          List.iter
            (fun (es, it) ->
+             (* anything wrong beneath an entry with a non-basic explicit key leaf has the shape of the known finding *)
+             try
              let it = (match it with Some it -> it | None -> assert false) in
              let n = List.length es in
              let holder = locate nonbasic [] doc (firstn (n - 1) es) in
@@ -443,10 +445,12 @@ let monitor_build id stream rfc (inp : item list) (doc : json) =
                       | ROther, (JStr _ | JNum _ | JArr _ | JNull) -> true
                       | _ -> false) in
                   if not ok then raise (Viol ("c18_leaf_value_wrong", Printf.sprintf "leaf %s" (show_elems es))))
-             | _ -> raise (Viol ("c18_leaf_missing", show_elems es)))
+             | _ -> raise (Viol ("c18_leaf_missing", show_elems es))
+             with Viol (_, d) when under_nonbasic es -> raise (Viol ("c18_nonbasic_key_leaf_split", d)))
            explicit;
          List.iter
            (fun (es, v) ->
+             try
              let n = List.length es in
              let holder = locate nonbasic [] doc (firstn (n - 1) es) in
              match holder with
@@ -454,12 +458,13 @@ let monitor_build id stream rfc (inp : item list) (doc : json) =
                (match List.assoc_opt (fst (List.nth es (n - 1))) o with
                 | Some (JStr t) when t = v -> ()
                 | _ -> raise (Viol ("c18_key_leaf_missing", Printf.sprintf "key leaf %s = %S" (show_elems es) v)))
-             | _ -> raise (Viol ("c18_key_leaf_missing", show_elems es)))
+             | _ -> raise (Viol ("c18_key_leaf_missing", show_elems es))
+             with Viol (_, d) when under_nonbasic es -> raise (Viol ("c18_nonbasic_key_leaf_split", d)))
            implied;
          let want = List.length explicit + List.length implied and have = count_leaves doc in
          if have > want then
            raise (Viol ((if nonbasic <> [] then "c18_nonbasic_key_leaf_split" else "c18_extra_leaves"), Printf.sprintf "the document has %d leaves, the live set accounts for %d" have want));
-         if have < want then raise (Viol ("c18_leaves_merged", Printf.sprintf "the document has %d leaves, the live set has %d" have want))
+         if have < want then raise (Viol ((if nonbasic <> [] then "c18_nonbasic_key_leaf_split" else "c18_leaves_merged"), Printf.sprintf "the document has %d leaves, the live set has %d" have want))
        with Viol (sg, d) ->
          specviol id sg (Printf.sprintf "rfc7951=%b %s; input=[%s]" rfc d (show_items inp)))
   end
